@@ -1,6 +1,9 @@
 import TracklibVerif.Lemmas.SplitSeg
 import TracklibVerif.Lemmas.SplitUid
 import TracklibVerif.Lemmas.SplitVal
+import TracklibVerif.Lemmas.SplitTrack
+import TracklibVerif.Lemmas.SplitIdx
+import TracklibVerif.Lemmas.SplitNum
 /-! # C11 — splitting on a marker partitions the track; markers reflect the thresholds
 
 Property theorems only (helper lemmas are in `Lemmas/Split*.lean`). The models are in `Model/Split.lean`:
@@ -11,6 +14,14 @@ loops of `segmentation()` on exact scalars with NaN = `none`, `segTrack` the who
 `Model/SplitVal.lean`: the same loops with `isnan(v)` and `v <= threshold` as the Python operator calls they are
 (`foldCmpG` … `segTrackG`), and the values a track hands over: numbers or `ObsTime` objects (`Val`; the built-in
 feature `timestamp`), compared with the `ObsTime` operators of `Model/ObsTime.lean`.
+`Model/SplitTrack.lean`: the front end of `split(track, <feature name>)` — the marker read from the feature table BY
+NAME (`FTrack.get`: built-in names, then the dictionary, by the exact string; `== 1` on the cell), `splitTrack` /
+`splitTrackU`, and `segmentation()` followed by `split()` on its output feature (`segSplitTrackG`).
+`Model/SplitNum.lean`: numbers as Python holds them — Python int, Python float, `numpy.int64`, `numpy.float64` (`PNum`) —
+and what `<=` does on each pairing: exact, except that numpy converts the integer operand of an integer/float pair to
+the nearest double (`roundInt`). `segmentation()` itself converts nothing (no `float(threshold)`): `marker_and_num` /
+`marker_or_num` state the property for integers of any size (beyond 2^53, beyond int64) against integer or float thresholds.
+Index lists: `extract_any` / `split_indices_any` cover every list of integers (negative, descending, out of range).
 All statements hold for every track length, every marker vector, every number of tested features; the
 observations are abstract, so nothing depends on coordinates (NaN, infinite, repeated), timestamps or other features. -/
 namespace TV.C11
@@ -174,6 +185,31 @@ theorem split_indices (short : List β → Bool) (l : List β) (src : List Nat)
     splitIdx short l (src.map (fun (k : Nat) => (k : Int))) = some ((idxPieces l src).filter (fun p => !short p)) ∧
     (idxPieces l src).length = src.length - 1 :=
   ⟨splitIdx_sorted short l src hs hb, idxPieces_length l src⟩
+
+/-- T6 (any integers): `Track.extract(a, b)` raises `IndexError` exactly when some index of `a..b` lies outside
+`[-size, size)` (Python list indexing: a negative index counts from the end); otherwise it returns `b - a + 1`
+observations (none when `a > b`), the `j`-th being `track[a + j]` — so a range that crosses 0 from the negative side
+wraps around from the end of the track to its beginning. -/
+theorem extract_any (l : List β) (a b : Int) :
+    ((extract l a b).isSome = true ↔ ∀ k, a ≤ k → k ≤ b → -(l.length : Int) ≤ k ∧ k < (l.length : Int)) ∧
+    ∀ p, extract l a b = some p →
+      p.length = (b + 1 - a).toNat ∧ ∀ (j : Nat), j < p.length → (p[j]?).map some = some (pyIndex l (a + (j : Int))) :=
+  ⟨extract_isSome l a b, extract_some l a b⟩
+
+/-- T6 (any index list — unsorted, negative, out of range): `split(track, source, limit)` raises `IndexError` exactly
+when one of the ranges `source[i] .. source[i+1]` reaches outside `[-size, size)`; otherwise it returns, in the order of
+the list, the tracks `extract(source[i], source[i+1])` (characterised by `extract_any`; empty for a descending pair)
+that are not `short`. -/
+theorem split_indices_any (short : List β → Bool) (l : List β) (src : List Int) :
+    ((splitIdx short l src).isSome = true ↔
+      ∀ ab ∈ pairs src, ∀ k, ab.1 ≤ k → k ≤ ab.2 → -(l.length : Int) ≤ k ∧ k < (l.length : Int)) ∧
+    ∀ r, splitIdx short l src = some r →
+      ∃ ps, (pairs src).mapM (fun ab => extract l ab.1 ab.2) = some ps ∧ r = ps.filter (fun p => !short p) := by
+  refine ⟨?_, splitIdx_some short l src⟩
+  rw [splitIdx_isSome]
+  constructor
+  · intro h ab hab; exact (extract_isSome l ab.1 ab.2).mp (h ab hab)
+  · intro h ab hab; exact (extract_isSome l ab.1 ab.2).mpr (h ab hab)
 
 /-- T7: `TrackCollection.split_segmentation`: the pieces, taken in order, are the observations of the tracks that
 have at least one marked observation, track after track, each exactly once and in the original order (a track
@@ -623,6 +659,112 @@ theorem segmentation_history_typed (isnan : α → Bool) (le? : α → α → Ex
   rfl
 end trackG
 
+/-! ## the front end of `split(track, <feature name>)`: the marker is read from the track by NAME -/
+section byname
+variable {α : Type}
+
+/-- T12 (what `split` reads): `getObsAnalyticalFeature(source, i)` finds the column stored under the key `source` —
+the whole string, neither stripped nor parsed — whatever other features the track carries and whatever THEIR names
+are: a marker called `speed-limit` is found as such when features `speed` and `limit` exist too, `" mark"` is not
+`"mark"`. (Hypotheses: `source` is not one of the six built-in names, and no earlier entry of the table has that
+very name — the table is a dictionary.) -/
+theorem split_reads_named_column (t : FTrack α) (source : String) (col : Col α)
+    (before after : List (String × Col α)) (hv : t.virt.lookup source = none)
+    (hf : t.feats = before ++ (source, col) :: after) (hb : ∀ p ∈ before, p.1 ≠ source) :
+    t.get source = some col := by
+  simp only [FTrack.get, hv, hf]
+  rw [lookup_append_skip source before _ hb, lookup_cons_self]
+
+/-- T12 (frame): the pieces (and the uid numbers, and the outcome when the name is unknown) depend on the track only
+through its size and the column read under the name `source`: two tracks that agree there are split alike, whatever
+their other features hold. -/
+theorem split_track_frame (isOne : Option α → Bool) (t t' : FTrack α) (source : String)
+    (hs : t'.size = t.size) (hg : t'.get source = t.get source) :
+    splitTrack isOne t' source = splitTrack isOne t source ∧
+    ∀ short keepTail, splitTrackU isOne short keepTail t' source = splitTrackU isOne short keepTail t source := by
+  constructor
+  · simp only [splitTrack, FTrack.marked, hs, hg]
+  · intro short keepTail
+    simp only [splitTrackU, FTrack.marked, hs, hg]
+
+/-- T12 (the split half of the property, for a track and a feature NAME): when the track has a feature `source`
+holding `col`, `split(track, source)` succeeds and its pieces — lists of observation indices — are: nothing when no
+cell of `col` equals 1; otherwise the observations 0 … size−1 exactly once and in order, every piece but the last
+ending at an observation whose cell equals 1 and containing no other such observation, the last piece containing
+none. `isOne` is `== 1` on a cell (any function: nothing is assumed about it). -/
+theorem split_track_property (isOne : Option α → Bool) (t : FTrack α) (source : String) (col : Col α)
+    (hg : t.get source = some col) :
+    ∃ pieces, splitTrack isOne t source = .ok pieces ∧
+      ((List.range t.size).any (colMark isOne col) = true → pieces.flatten = List.range t.size) ∧
+      ((List.range t.size).any (colMark isOne col) = false → pieces = []) ∧
+      (∀ p ∈ pieces.dropLast, EndsMarked (colMark isOne col) p) ∧
+      (∀ tl, pieces.getLast? = some tl → ∀ q ∈ tl, colMark isOne col q = false) := by
+  refine ⟨_, splitTrack_of_get isOne t source col hg, ?_, ?_, ?_, ?_⟩
+  · intro h
+    have := split_partition (tag (colMark isOne col) (List.range t.size)) (by rw [any_tag]; exact h)
+    simpa [tag, Function.comp_def] using this
+  · intro h
+    exact split_none _ (by rw [any_tag]; exact h)
+  · exact split_ends_marked _ _
+  · exact fun tl h => split_tail_unmarked _ _ tl h
+
+/-- T12 (limit, uids): the same front end with a `limit` returns the pieces of `split_limit_filter` with the uid
+numbers of `split_uid_numbers`, on the markers read under the name `source`. -/
+theorem split_track_uid (isOne : Option α → Bool) (short keepTail : List Nat → Bool) (t : FTrack α) (source : String)
+    (col : Col α) (hg : t.get source = some col) :
+    ∃ r, splitTrackU isOne short keepTail t source = .ok r ∧
+      r.map Prod.snd = splitL short keepTail (tag (colMark isOne col) (List.range t.size)) :=
+  ⟨_, splitTrackU_of_get isOne short keepTail t source col hg, splitU_pieces _ _ _⟩
+
+/-- T12 (unknown name, outside the domain): `AnalyticalFeatureError` on a non-empty track, the empty collection on an
+empty one (the loop does not run). -/
+theorem split_track_unknown (isOne : Option α → Bool) (t : FTrack α) (source : String) (hg : t.get source = none) :
+    splitTrack isOne t source = if t.size = 0 then .ok [] else .error "af" := by
+  simp [splitTrack, FTrack.marked, hg]
+
+variable [OfNat α 0] [OfNat α 1]
+
+/-- T13 (`segmentation()` then `split()` on its output feature, any kind of tested value): under the hypotheses of
+`segmentation_track_typed`, the two calls in a row succeed and return the split of the track on the markers `bs` of
+its rows (each characterised by `marker_and_typed` / `marker_or_typed`): the column written by `segmentation()` as
+1 / 0 is read back by `split()` under the same name with `== 1`. Whatever the output name is (not reserved), and
+whether or not the feature existed before. The three facts about `isOne` are those of Python's `== 1` on 1, 0, NaN. -/
+theorem segmentation_then_split (isnan : α → Bool) (le? : α → α → Except String Bool) (gt : α → α → Bool)
+    (isOne : Option α → Bool) (h1 : isOne (some 1) = true) (h0 : isOne (some 0) = false) (hn : isOne none = false)
+    (fmax : α) (andMode : Bool) (t : FTrack α) (afs : Arg String) (out : String) (ths : Arg α)
+    (hres : reserved.contains out = false) (hsize : t.size ≠ 0) (hvirt : t.virt.lookup out = none)
+    (hknown : ∀ a ∈ afs.listify, ((t.create out).get a).isSome = true)
+    (hlen : afs.listify.length ≤ ths.listify.length)
+    (hty : ∀ rows, (t.create out).rows afs.listify = some rows → ∀ r ∈ rows, Typed isnan le? gt ths.listify 0 r) :
+    ∃ (rows : List (List (Option _))) (bs : List Bool), (t.create out).rows afs.listify = some rows ∧ rows.length = t.size ∧
+      bs.length = t.size ∧
+      rows.map (markerG isnan le? fmax andMode ths.listify) = bs.map Except.ok ∧
+      segSplitTrackG isnan le? isOne fmax andMode t afs out ths =
+        .ok (split (tag (fun i => (bs[i]?).getD false) (List.range t.size))) := by
+  obtain ⟨rows, bs, t', hrows, hrl, _, hall, hseg, hget, _, _, hsz, _⟩ :=
+    segmentation_track_typed isnan le? gt fmax andMode t afs out ths hres hsize hvirt hknown hlen hty
+  refine ⟨rows, bs, hrows, hrl, by rw [map_ok_length _ _ _ hall, hrl], hall, ?_⟩
+  simp only [segSplitTrackG, hseg]
+  rw [splitTrack_of_get isOne t' out _ hget, hsz]
+  unfold markVal
+  rw [colMark_markers isOne h1 h0 hn bs]
+
+/-- T13 on numbers and `ObsTime` objects, with Python's `== 1` -/
+theorem segmentation_then_split_val (andMode : Bool) (t : FTrack Val) (afs : Arg String) (out : String) (ths : Arg Val)
+    (hres : reserved.contains out = false) (hsize : t.size ≠ 0) (hvirt : t.virt.lookup out = none)
+    (hknown : ∀ a ∈ afs.listify, ((t.create out).get a).isSome = true)
+    (hlen : afs.listify.length ≤ ths.listify.length)
+    (hk : ∀ rows, (t.create out).rows afs.listify = some rows → ∀ r ∈ rows, ∀ (i : Nat) (v th : Val),
+      r[i]? = some (some v) → ths.listify[i]? = some th → Val.sameKind v th = true) :
+    ∃ (rows : List (List (Option _))) (bs : List Bool), (t.create out).rows afs.listify = some rows ∧ rows.length = t.size ∧
+      bs.length = t.size ∧
+      rows.map (markerG Val.isnan Val.le? Val.fmax andMode ths.listify) = bs.map Except.ok ∧
+      segSplitTrackG Val.isnan Val.le? Val.isOne Val.fmax andMode t afs out ths =
+        .ok (split (tag (fun i => (bs[i]?).getD false) (List.range t.size))) :=
+  segmentation_then_split Val.isnan Val.le? Val.gt Val.isOne (by decide) (by decide) rfl Val.fmax andMode t afs out ths
+    hres hsize hvirt hknown hlen (fun rows hr r hmem => Val.typed _ _ (hk rows hr r hmem))
+end byname
+
 /-! ## the hypotheses are satisfiable by non-trivial inputs (and the model computes what Python does) -/
 
 -- markers 0 1 0 1 on tags 10..13: pieces [10,11] [12,13] and the empty tail of `extract(4, 3)`
@@ -717,5 +859,95 @@ example : ((segTrackG Val.isnan Val.le? Val.fmax true
       (.many ["speed", "timestamp"]) "cut" (.many [.num (.fin 5), .time s2])).toOption.map (·.feats))
     = some [("speed", [some (.num (.fin 9)), none, some (.num (.fin 1))]), ("cut", [some 1, some 0, some 1])] := by
   decide +kernel
+-- index lists with Python indexing: negative indices, a descending pair (empty piece), a range wrapping around 0, IndexError
+example : extract [10, 11, 12, 13] (-2) (-1) = some [12, 13] := by decide +kernel
+example : extract [10, 11, 12, 13] (-1) 1 = some [13, 10, 11] := by decide +kernel
+example : extract [10, 11, 12, 13] 2 4 = none := by decide +kernel
+example : splitIdx (fun _ => false) [10, 11, 12, 13] [3, 1, 2, -1] = some [[], [11, 12], []] := by decide +kernel
+example : splitIdx (fun _ => false) [10, 11, 12, 13] [0, 1, 5] = none := by decide +kernel
+example : pairs [3, 1, 2, -1] = [(3, 1), (1, 2), (2, -1)] := by decide
+-- the marker read by NAME: features `speed`, `limit` and a marker called `speed-limit` (speed - limit equals 1 at the
+-- observations 0 and 2, the marker is 1 at 1 only); ` cut` is not `cut`; cells 1.0 / True are 1 by value, 2 and NaN are not
+private def tk : FTrack Val :=
+  { size := 4, virt := [("idx", [some (.num (.fin 0)), some (.num (.fin 1)), some (.num (.fin 2)), some (.num (.fin 3))])],
+    feats := [("speed", [some (.num (.fin 3)), some (.num (.fin 2)), some (.num (.fin 5)), some (.num (.fin 1))]),
+              ("limit", [some (.num (.fin 2)), some (.num (.fin 2)), some (.num (.fin 4)), some (.num (.fin 1))]),
+              ("speed-limit", [some 0, some 1, some 0, some 0]),
+              ("cut", [some 1, some 0, some 0, some 0]),
+              (" cut", [some (.num (.fin 2)), none, some 1, some 0])] }
+example : (splitTrack Val.isOne tk "speed-limit").toOption = some [[0, 1], [2, 3]] := by decide +kernel
+example : (splitTrack Val.isOne tk " cut").toOption = some [[0, 1, 2], [3]] := by decide +kernel
+example : (splitTrack Val.isOne tk "cut").toOption = some [[0], [1, 2, 3]] := by decide +kernel
+example : (splitTrack Val.isOne tk "idx").toOption = some [[0, 1], [2, 3]] := by decide +kernel
+example : (splitTrack Val.isOne tk "speed - limit").toOption = none := by decide +kernel
+example : tk.get "speed-limit" = some [some 0, some 1, some 0, some 0] := by decide +kernel
+example : (List.range tk.size).any (colMark Val.isOne [some 0, some 1, some 0, some 0]) = true := by decide +kernel
+-- segmentation() into an output feature called `speed>2` (speed > 2 at 0 and 2), then split() on it
+example : (segSplitTrackG Val.isnan Val.le? Val.isOne Val.fmax true tk (.one "speed") "speed>2" (.one (.num (.fin 2)))).toOption
+    = some [[0], [1, 2], [3]] := by decide +kernel
 end
+/-! ## numbers of different Python types: ints of any size, floats, numpy scalars (`Model/SplitNum.lean`) -/
+section num
+
+/-- T14 (`<=` between two Python numbers is exact): for a Python int or float against a Python int or float, in any
+pairing and at any magnitude, `a <= b` answers, and answers exactly "not (a exceeds b)" on the VALUES — Python does not
+convert the int to a float (`2**53 + 1 <= 2.0**53` is False). Exact arithmetic: the values are rationals. -/
+theorem num_le_python (a b : PNum) (ha : a.kind.isNumpy = false) (hb : b.kind.isNumpy = false) :
+    PNum.le? a b = .ok (decide (a.val ≤ b.val)) := by
+  unfold PNum.le?
+  rw [PNum.converts_python a b ha hb, PNum.image_false, PNum.image_false]
+
+/-- T14 (numpy scalars): two integers (`numpy.int64` / Python int) or two floats are compared exactly as well
+(`PNum.converts_same`); when numpy does convert — an integer operand `n` of any of the four types against a float `x`
+of either flavour — an integer below 2^53 in magnitude is unchanged by the conversion, so the comparison is still the
+exact one, both ways round. -/
+theorem num_le_small (ka kb : NumKind) (n : Int) (x : Rat) (h : n.natAbs < 2 ^ 53) (hkb : kb.isInt = false) :
+    PNum.le? ⟨ka, .fin (n : Rat)⟩ ⟨kb, .fin x⟩ = .ok (decide ((n : Rat) ≤ x)) ∧
+    PNum.le? ⟨kb, .fin x⟩ ⟨ka, .fin (n : Rat)⟩ = .ok (decide (x ≤ (n : Rat))) := by
+  have hx : ∀ (c : Bool), PNum.image c ⟨kb, .fin x⟩ = .fin x := by
+    intro c; unfold PNum.image; simp [hkb]
+  constructor
+  · unfold PNum.le?
+    rw [PNum.image_small _ ka n h, hx]; congr 1; exact decide_eq_decide.mpr (Ext.fin_le _ _)
+  · unfold PNum.le?
+    rw [PNum.image_small _ ka n h, hx]; congr 1; exact decide_eq_decide.mpr (Ext.fin_le _ _)
+
+/-- T14 (AND mode on numbers of any Python type and size): thresholds paired with the tested values so that no compared
+pair makes numpy convert (Python ints and floats in any pairing — e.g. an integer feature beyond 2^53 against an integer
+threshold that is not a double; `numpy.int64` against integers; floats against floats): the call raises nothing and the
+marker is 1 exactly when some tested non-NaN value EXACTLY exceeds its threshold. No threshold is rounded. -/
+theorem marker_and_num (ths : List PNum) (vals : List (Option PNum)) (h : vals.length ≤ ths.length)
+    (hk : ∀ (i : Nat) (v th : PNum), vals[i]? = some (some v) → ths[i]? = some th → v.converts th = false) :
+    ∃ b, markerG PNum.isnan PNum.le? PNum.fmax true ths vals = .ok b ∧
+      (b = true ↔ ∃ (i : Nat) (v th : PNum), vals[i]? = some (some v) ∧ ths[i]? = some th ∧ th.val < v.val) := by
+  obtain ⟨b, hb, hiff⟩ := marker_and_typed PNum.isnan PNum.le? PNum.gt PNum.fmax ths vals h (PNum.typed ths vals hk)
+  refine ⟨b, hb, hiff.trans ⟨?_, ?_⟩⟩
+  · rintro ⟨i, v, th, hv, _, hth, hg⟩; exact ⟨i, v, th, hv, hth, by simpa [PNum.gt] using hg⟩
+  · rintro ⟨i, v, th, hv, hth, hg⟩; exact ⟨i, v, th, hv, rfl, hth, by simpa [PNum.gt] using hg⟩
+
+/-- T14 (OR mode): the marker is 1 exactly when every tested non-NaN value exactly exceeds its threshold. -/
+theorem marker_or_num (ths : List PNum) (vals : List (Option PNum)) (h : vals.length ≤ ths.length)
+    (hk : ∀ (i : Nat) (v th : PNum), vals[i]? = some (some v) → ths[i]? = some th → v.converts th = false) :
+    ∃ b, markerG PNum.isnan PNum.le? PNum.fmax false ths vals = .ok b ∧
+      (b = true ↔ ∀ (i : Nat) (v th : PNum), vals[i]? = some (some v) → ths[i]? = some th → th.val < v.val) := by
+  obtain ⟨b, hb, hiff⟩ := marker_or_typed PNum.isnan PNum.le? PNum.gt PNum.fmax ths vals h (PNum.typed ths vals hk)
+  refine ⟨b, hb, hiff.trans ⟨?_, ?_⟩⟩
+  · intro hall i v th hv hth; simpa [PNum.gt] using hall i v th hv rfl hth
+  · intro hall i v th hv _ hth; simpa [PNum.gt] using hall i v th hv hth
+
+-- non-vacuity / regression witnesses: an integer threshold beyond 2^53 that is not a double (2^53 + 3), integer values
+-- around it; rounding the threshold to its double (2^53 + 4) would move the marker of the values 2^53 + 4: the model,
+-- like the code, does not
+example : (markersG PNum.isnan PNum.le? PNum.fmax true [⟨.pyInt, .fin (2 ^ 53 + 3)⟩]
+    [[some ⟨.pyInt, .fin (2 ^ 53 + 2)⟩], [some ⟨.pyInt, .fin (2 ^ 53 + 3)⟩], [some ⟨.pyInt, .fin (2 ^ 53 + 4)⟩], [none]]).toOption
+    = some [false, false, true, false] := by decide +kernel
+example : roundInt (2 ^ 53 + 3) = 2 ^ 53 + 4 := by decide +kernel
+example : roundInt 1700000000000000300 = 1700000000000000256 := by decide +kernel
+example : (markersG PNum.isnan PNum.le? PNum.fmax true [⟨.pyFloat, .fin (2 ^ 53 + 4)⟩] [[some ⟨.pyInt, .fin (2 ^ 53 + 4)⟩]]).toOption
+    = some [false] := by decide +kernel
+-- a Python int against a float: exact; the same integer as a numpy.int64 against the same float: converted first
+example : (PNum.le? ⟨.pyInt, .fin (2 ^ 53 + 1)⟩ ⟨.pyFloat, .fin (2 ^ 53)⟩).toOption = some false := by decide +kernel
+example : (PNum.le? ⟨.npInt, .fin (2 ^ 53 + 1)⟩ ⟨.pyFloat, .fin (2 ^ 53)⟩).toOption = some true := by decide +kernel
+example : (PNum.le? ⟨.npFloat, .fin (2 ^ 53 + 4)⟩ ⟨.pyInt, .fin (2 ^ 53 + 3)⟩).toOption = some true := by decide +kernel
+end num
 end TV.C11
